@@ -48,3 +48,66 @@ package tracetransform
 //@   ensures len(sdl) == 0 ==> len(rss) == 0
 //@   assert@call span#1 : sd != nil && $arg0 == sd && k.r == rKey && k.is == sd.InstrumentationScope()
 //@   assert@call InstrumentationScope#3 : !iOk
+
+// ======================================================================== C13 attributes: the eight value kinds
+// slice helpers: same length, element i is a fresh AnyValue of the matching oneof kind holding exactly vals[i]
+//@ func boolSliceValues(vals []bool) (converted []*commonpb.AnyValue)
+//@   prop C13
+//@   overflow assumed
+//@   unchecked frame fresh protobuf messages are written
+//@   ensures len(converted) == len(vals)
+//@   assert@store elem#* : $val != nil && typeis($val.Value, "*commonpb.AnyValue_BoolValue") && cast($val.Value, "*commonpb.AnyValue_BoolValue").BoolValue == vals[i] && 0 <= i && i < len(vals)
+//@   loop#1 invariant len(converted) == len(vals) && fresh(converted)
+//@ func int64SliceValues(vals []int64) (converted []*commonpb.AnyValue)
+//@   prop C13
+//@   overflow assumed
+//@   unchecked frame fresh protobuf messages are written
+//@   ensures len(converted) == len(vals)
+//@   assert@store elem#* : $val != nil && typeis($val.Value, "*commonpb.AnyValue_IntValue") && cast($val.Value, "*commonpb.AnyValue_IntValue").IntValue == vals[i] && 0 <= i && i < len(vals)
+//@   loop#1 invariant len(converted) == len(vals) && fresh(converted)
+//@ func float64SliceValues(vals []float64) (converted []*commonpb.AnyValue)
+//@   prop C13
+//@   overflow assumed
+//@   unchecked frame fresh protobuf messages are written
+//@   ensures len(converted) == len(vals)
+//@   assert@store elem#* : $val != nil && typeis($val.Value, "*commonpb.AnyValue_DoubleValue") && cast($val.Value, "*commonpb.AnyValue_DoubleValue").DoubleValue === vals[i] && 0 <= i && i < len(vals)
+//@   loop#1 invariant len(converted) == len(vals) && fresh(converted)
+//@ func stringSliceValues(vals []string) (converted []*commonpb.AnyValue)
+//@   prop C13
+//@   overflow assumed
+//@   unchecked frame fresh protobuf messages are written
+//@   ensures len(converted) == len(vals)
+//@   assert@store elem#* : $val != nil && typeis($val.Value, "*commonpb.AnyValue_StringValue") && cast($val.Value, "*commonpb.AnyValue_StringValue").StringValue == vals[i] && 0 <= i && i < len(vals)
+//@   loop#1 invariant len(converted) == len(vals) && fresh(converted)
+
+// Value: the oneof kind follows the attribute's type; scalars carry exactly the attribute's value; anything else is the string "INVALID"
+//@ func Value(v attribute.Value) (av *commonpb.AnyValue)
+//@   prop C13
+//@   overflow assumed
+//@   unchecked frame,no-panic fresh protobuf messages are written; slice values are unpacked through reflection (attribute/internal)
+//@   ensures av != nil
+//@   ensures v.vtype == attribute.BOOL ==> typeis(av.Value, "*commonpb.AnyValue_BoolValue") && cast(av.Value, "*commonpb.AnyValue_BoolValue").BoolValue == v.AsBool()
+//@   ensures v.vtype == attribute.INT64 ==> typeis(av.Value, "*commonpb.AnyValue_IntValue") && cast(av.Value, "*commonpb.AnyValue_IntValue").IntValue == v.AsInt64()
+//@   ensures v.vtype == attribute.FLOAT64 ==> typeis(av.Value, "*commonpb.AnyValue_DoubleValue") && cast(av.Value, "*commonpb.AnyValue_DoubleValue").DoubleValue === v.AsFloat64()
+//@   ensures v.vtype == attribute.STRING ==> typeis(av.Value, "*commonpb.AnyValue_StringValue") && cast(av.Value, "*commonpb.AnyValue_StringValue").StringValue == v.AsString()
+//@   ensures v.vtype == attribute.BOOLSLICE || v.vtype == attribute.INT64SLICE || v.vtype == attribute.FLOAT64SLICE || v.vtype == attribute.STRINGSLICE ==> typeis(av.Value, "*commonpb.AnyValue_ArrayValue")
+//@   ensures v.vtype == attribute.INVALID ==> typeis(av.Value, "*commonpb.AnyValue_StringValue") && cast(av.Value, "*commonpb.AnyValue_StringValue").StringValue == "INVALID"
+//@   assert@call boolSliceValues#1 : v.vtype == attribute.BOOLSLICE
+//@   assert@call int64SliceValues#1 : v.vtype == attribute.INT64SLICE
+//@   assert@call float64SliceValues#1 : v.vtype == attribute.FLOAT64SLICE
+//@   assert@call stringSliceValues#1 : v.vtype == attribute.STRINGSLICE
+
+// KeyValue / KeyValues: key copied, value converted by Value; the list keeps length and order
+//@ func KeyValue(kv attribute.KeyValue) (r *commonpb.KeyValue)
+//@   prop C13
+//@   overflow assumed
+//@   unchecked frame,no-panic fresh protobuf messages are written
+//@   ensures r != nil && r.Key == kv.Key && r.Value != nil
+//@   assert@call Value#1 : $arg0 == kv.Value
+//@ func KeyValues(attrs []attribute.KeyValue) (out []*commonpb.KeyValue)
+//@   prop C13
+//@   overflow assumed
+//@   unchecked frame fresh protobuf messages are written
+//@   ensures len(out) == len(attrs)
+//@   assert@call KeyValue#* : $arg0 == attrs[$k]
+//@   loop#1 invariant len(out) == $k && $k <= len(attrs) && cap(out) == len(attrs)
